@@ -9,6 +9,14 @@
                                              or "error"; then "rootkey <bits|-|nil>" and, sorted by key, one
                                              "node <key> <left|nil> <right|nil> <stored value term>" per stored
                                              node (bits as 0/1 strings, "-" = the empty path), then "end"
+   ba <op> <args>                        -> the word-level BitArray model (BitArray.v): one reply line.
+                                             bit arrays are written L:W3.W2.W1.W0 (length decimal, words hex),
+                                             byte strings as hex ("-" = empty), small numbers decimal, felts hex.
+                                             Replies: "ba <bitarray> <wf t|f>", "b t|f", "n <decimal>", "h <hex>",
+                                             "x <hex bytes>", "err".
+   nenc <value> <left> <right> <lh> <rh> -> Node.WriteTo:   "x <hex bytes>" or "err"      ("nil" = nil field)
+   ndec <rlh> <rrh> <hex bytes>          -> Node.UnmarshalBinary on a receiver with these LeftHash/RightHash:
+                                             "node <value> <left> <right> <lh> <rh>" or "err"
    Terms are printed as S-expressions; the harness evaluates them with core/crypto. *)
 let rec show_term (t : term) : string = match t with
   | TC z -> "(C " ^ hex_of_z z ^ ")"
@@ -49,6 +57,77 @@ let parse_block (items : string list) : diff =
     | _ -> failwith ("block item " ^ it)) items;
   { d_deployed = !dep; d_replaced = !rep; d_nonces = !non; d_storage = !sto; d_declared = !dec; d_migrated = !mig }
 
+
+(* ---------- BitArray / node codec requests ---------- *)
+let parse_ba (s : string) : bitarray = match String.split_on_char ':' s with
+  | [l; ws] -> (match String.split_on_char '.' ws with
+      | [a3; a2; a1; a0] -> { blen = n_of_int (int_of_string l); w0 = n_of_hex a0; w1 = n_of_hex a1; w2 = n_of_hex a2; w3 = n_of_hex a3 }
+      | _ -> failwith ("bitarray words " ^ s))
+  | _ -> failwith ("bitarray " ^ s)
+let show_ba (b : bitarray) : string =
+  string_of_int (int_of_n b.blen) ^ ":" ^ hex_of_n b.w3 ^ "." ^ hex_of_n b.w2 ^ "." ^ hex_of_n b.w1 ^ "." ^ hex_of_n b.w0
+let parse_oba (s : string) : bitarray option = if s = "nil" then None else Some (parse_ba s)
+let show_oba (o : bitarray option) : string = match o with None -> "nil" | Some b -> show_ba b
+let parse_bytes (s : string) : n list =
+  if s = "-" then [] else
+  List.init (String.length s / 2) (fun i -> n_of_int (16 * hexval s.[2 * i] + hexval s.[2 * i + 1]))
+let show_bytes (l : n list) : string =
+  if l = [] then "-" else
+  String.concat "" (List.map (fun b -> Printf.sprintf "%02x" (int_of_n b)) l)
+let num (s : string) : n = n_of_int (int_of_string s)
+let parse_on (s : string) : n option = if s = "nil" then None else Some (n_of_hex s)
+let show_on (o : n option) : string = match o with None -> "nil" | Some v -> hex_of_n v
+let rba (b : bitarray) : string = "ba " ^ show_ba b ^ (if wfb b then " t" else " f")
+let rbool (b : bool) : string = if b then "b t" else "b f"
+let rnum (v : n) : string = "n " ^ string_of_int (int_of_n v)
+
+let ba_request (op : string) (a : string list) : string = match op, a with
+  | "lsbs_from_lsb", [x; n] -> rba (lsbs_from_lsb (parse_ba x) (num n))
+  | "lsbs", [x; n] -> rba (lsbs (parse_ba x) (num n))
+  | "msbs", [x; n] -> rba (msbs (parse_ba x) (num n))
+  | "rsh", [x; n] -> rba (rsh (parse_ba x) (num n))
+  | "lsh", [x; n] -> rba (lsh (parse_ba x) (num n))
+  | "append", [x; y] -> rba (append (parse_ba x) (parse_ba y))
+  | "append_bit", [x; b] -> rba (append_bit (parse_ba x) (num b))
+  | "append_zeros", [x; n] -> rba (append_zeros (parse_ba x) (num n))
+  | "subset", [x; s; e] -> rba (subset (parse_ba x) (num s) (num e))
+  | "or", [x; y] -> rba (ba_or (parse_ba x) (parse_ba y))
+  | "and", [x; y] -> rba (ba_and (parse_ba x) (parse_ba y))
+  | "xor", [l; x; y] -> rba (ba_xor (num l) (parse_ba x) (parse_ba y))
+  | "equal", [x; y] -> rbool (oba_eqb (parse_oba x) (parse_oba y))
+  | "equal_msbs", [x; y] -> rbool (ba_equal_msbs (parse_ba x) (parse_ba y))
+  | "common_msbs", [x; y] -> rba (ba_common_msbs (parse_ba x) (parse_ba y))
+  | "bit", [x; n] -> rnum (bit (parse_ba x) (num n))
+  | "bit_from_lsb", [x; n] -> rnum (bit_from_lsb (parse_ba x) (num n))
+  | "is_bit_set", [x; n] -> rbool (ba_is_bit_set (parse_ba x) (num n))
+  | "is_bit_set_from_lsb", [x; n] -> rbool (is_bit_set_from_lsb (parse_ba x) (num n))
+  | "msb", [x] -> rnum (ba_msb (parse_ba x))
+  | "lsb", [x] -> rnum (ba_lsb (parse_ba x))
+  | "is_empty", [x] -> rbool (ba_is_empty (parse_ba x))
+  | "len", [x] -> rnum (ba_len (parse_ba x))
+  | "cmp", [x; y] -> (match ba_cmp (parse_ba x) (parse_ba y) with Lt -> "n -1" | Eq -> "n 0" | Gt -> "n 1")
+  | "set_bit", [b] -> rba (set_bit (num b))
+  | "ones", [n] -> rba (ones (num n))
+  | "zeros", [n] -> rba (zeros (num n))
+  | "set_uint64", [r; l; d] -> rba (set_uint64 (parse_ba r) (num l) (n_of_hex d))
+  | "new_bit_array", [l; d] -> rba (new_bit_array (num l) (n_of_hex d))
+  | "set_bytes", [l; d] -> rba (set_bytes (num l) (parse_bytes d))
+  | "set_felt", [l; f] -> rba (set_felt (num l) (n_of_hex f))
+  | "set_felt251", [f] -> rba (set_felt251 (n_of_hex f))
+  | "felt", [x] -> "h " ^ hex_of_n (ba_felt (parse_ba x))
+  | "bytes", [x] -> "x " ^ show_bytes (bytes32 (parse_ba x))
+  | "write", [x] -> "x " ^ show_bytes (ba_write (parse_ba x))
+  | "unmarshal", [d] -> (match ba_unmarshal (parse_bytes d) with None -> "err" | Some b -> rba b)
+  | "encoded_len", [x] -> rnum (encoded_len (parse_ba x))
+  | "encoded_string", [x] -> "x " ^ show_bytes (encoded_string (parse_ba x))
+  | "path", [k; p] -> rba (ba_path (parse_ba k) (parse_oba p))
+  | "copy", [x] -> rba (parse_ba x)
+  | "find_first_set_bit", [x] -> rnum (find_first_set_bit (parse_ba x))
+  | _ -> failwith ("bad ba request: " ^ op)
+
+let show_node (n : snode) : string =
+  "node " ^ show_on n.sn_value ^ " " ^ show_oba n.sn_left ^ " " ^ show_oba n.sn_right ^ " " ^ show_on n.sn_lh ^ " " ^ show_on n.sn_rh
+
 let () =
   read_lines (fun line ->
     (match words line with
@@ -76,6 +155,12 @@ let () =
              let rows = List.map (fun (((k, l), r), v) ->
                (show_bits k, "node " ^ show_bits k ^ " " ^ show_obits l ^ " " ^ show_obits r ^ " " ^ show_term v)) (t1_dump st) in
              List.iter (fun (_, s) -> print_endline s) (List.sort (fun (a, _) (b, _) -> compare a b) rows))
+    | "ba" :: op :: args -> print_endline (ba_request op args)
+    | ["nenc"; v; l; r; lh; rh] ->
+        let n = { sn_value = parse_on v; sn_left = parse_oba l; sn_right = parse_oba r; sn_lh = parse_on lh; sn_rh = parse_on rh } in
+        print_endline (match node_encode n with None -> "err" | Some bs -> "x " ^ show_bytes bs)
+    | ["ndec"; rlh; rrh; d] ->
+        print_endline (match node_decode (parse_on rlh) (parse_on rrh) (parse_bytes d) with None -> "err" | Some n -> show_node n)
     | "state" :: ver :: rest ->
         let blocks = List.map words (String.split_on_char '|' (String.concat " " rest)) in
         let ds = List.map parse_block blocks in
